@@ -617,6 +617,8 @@ def subscript(interp, base, idx, st, node):
             sl = slice(*[None if x.kind == "none" else x.const for x in idx.items])
             sub = base.items[sl]
             return (interp.mk_list if base.kind == "list" else interp.mk_tuple)(sub)
+    if base.kind == "list" and base.items is None and idx.has_const and idx.const == -1 and isinstance(base.extra, tuple) and base.extra and base.extra[0] == "last":
+        return base.extra[1]  # l.append(x); l[-1]
     if base.kind == "dict":
         if base.items is not None and idx.has_const:
             if idx.const in base.items:
@@ -626,6 +628,9 @@ def subscript(interp, base, idx, st, node):
         return V("unk", T("getitem", base.term, idx.term), labels=labels)
     if base.kind == "ext" or base.kind == "obj":
         return V("unk", T("getitem", base.term, idx.term), labels=labels, orig=base.orig)
+    if base.kind == "arr" and base.shape is not None and idx.kind == "diagidx" and len(base.shape) == 2:
+        # a[np.diag_indices_from(a)] is the diagonal
+        return V("arr", T("diagof", base.term), shape=(interp.order.dmin(base.shape[0], base.shape[1]),), orig=frozenset([FRESH]), labels=labels, loc=fresh_id())
     if base.kind == "arr" and base.shape is not None:
         idx = _canon_index(interp, base, idx)
         if idx is None:
